@@ -404,6 +404,22 @@ class PumpCaller(TLSUnit):
         self.pump_calls = []
         self.pump_result = None
         self.transport_waits = 0
+        self.direct_calls = []
+        self._ip = ip
+
+    def loop_spec_by_shape(self, node, f):
+        # receive / send / unwrap / aclose have no loop of their own on the pinned tree; a loop added by an edit is run with
+        # the weakest invariant (true: everything it may touch is unknown afterwards), so that the obligations about what
+        # happened before it - e.g. an SSL call outside the pump - are still reported instead of the unit being undecided
+        from segvc.core import PathEnd
+        from segvc.unit import LoopSpec
+
+        if self.direct_calls and getattr(self, "_ip", None) is not None:
+            # an SSL call outside the pump has already happened on this path: report it now (exploring the added loop over
+            # byte sequences with no invariant costs minutes and adds nothing)
+            self._ip.ctx.fail(f"{self.qualname}/post:every_SSL_call_goes_through_the_pump", "post", f"SSL calls outside the pump: {[c[0] for c in self.direct_calls]}")
+            raise PathEnd("reported")
+        return LoopSpec(lambda ip, env: [], modifies=None)
 
     def ssl_call(self, ip, name, args):
         raise Unsupported("an SSL call outside the pump")
@@ -421,8 +437,13 @@ class PumpCaller(TLSUnit):
         self.direct_calls = getattr(self, "direct_calls", []) + [(attr, a)]
         if attr == "pending":
             return Sym(ip.st.fresh("ssl_pending", z3.IntSort()), INT)
+        if attr == "write":
+            # SSLObject.write(data) outside the pump: recorded (the callers' obligations demand the pump); returns a count
+            n_ = Sym(ip.st.fresh("ssl_written", z3.IntSort()), INT)
+            self.direct_result = n_
+            return n_
         r = Sym(ip.st.fresh("plaintext", z3.StringSort()), BYTES)
-        if a:
+        if a and isinstance(a[0], (int, Sym)) and not (isinstance(a[0], Sym) and a[0].ty is not INT):
             ip.st.assume(z3.Length(r.t) <= ip.term(a[0], INT))
         self.direct_result = r
         return r
@@ -468,7 +489,11 @@ class SendUnit(PumpCaller):
 
     def on_exit(self, ip, pre, a, exc, ret):
         ok = len(self.pump_calls) == 1 and self.pump_calls[0][0] == "SSLObject.write" and len(self.pump_calls[0][1]) == 1 and self.pump_calls[0][1][0] is self.item
-        ip.ctx.oblige("TLSStream.send/post:one_SSL_write_of_exactly_the_item_through_the_pump", z3.BoolVal(ok), "post")
+        ok = ok and not getattr(self, "direct_calls", [])
+        if ok:
+            ip.ctx.oblige("TLSStream.send/post:one_SSL_write_of_exactly_the_item_through_the_pump", z3.BoolVal(True), "post")
+        else:
+            ip.ctx.fail("TLSStream.send/post:one_SSL_write_of_exactly_the_item_through_the_pump", "post", f"pump calls: {[c[0] for c in self.pump_calls]}, SSL calls outside the pump: {[c[0] for c in getattr(self, 'direct_calls', [])]}")
 
 
 class UnwrapUnit(PumpCaller):
